@@ -228,6 +228,13 @@ def proof_obligations(prop, modules):
     if rc != 0:
         res["failures"].append("axiom audit failed to run: " + text[-300:])
     res["discharged"] = discharged
+    # thorough tier: Lean's independent re-checker replays the compiled declarations of the property modules
+    if os.environ.get("VERIF_TIER_EFFECTIVE") == "thorough":
+        okc, outc = leanchecker(modules)
+        res["leanchecker"] = "ok" if okc else outc[-400:]
+        res["checker_cmd"] += " && lake env leanchecker " + " ".join(modules)
+        if not okc:
+            res["failures"].append("leanchecker rejects " + " ".join(modules) + ": " + outc[-300:])
     res["ok"] = not res["failures"] and discharged == len(thms) and len(thms) > 0
     return res
 
